@@ -243,7 +243,11 @@ class SourceFile:
 
     @classmethod
     def get(cls, root, rel):
-        key = (root, rel)
+        try:
+            st = os.stat(os.path.join(root, rel))
+            key = (root, rel, st.st_mtime_ns, st.st_size)
+        except OSError:
+            key = (root, rel, 0, 0)
         if key not in cls.cache:
             cls.cache[key] = SourceFile(root, rel)
         return cls.cache[key]
@@ -734,7 +738,10 @@ def fn_structure(text):
 
 
 def stmt_start_ok(toks, k):
-    """token index k starts a statement: previous significant token is ; { or }"""
+    """token index k starts a statement: previous significant token is ; { or } (an `else` arm is
+    the continuation of its `if` statement, not a statement start)"""
+    if toks[k][0] == 'id' and toks[k][1] == 'else':
+        return False
     j = k - 1
     while j >= 0 and toks[j][0] in ('ws', 'lcomment', 'bcomment'):
         j -= 1
